@@ -49,7 +49,7 @@ CONCEPTS = [NO_CONCEPT, 'x', None, 'b']
 # the small catalogues used at the larger bounds
 ATOMS_S = ['a', 'b', 'x']
 CONCEPTS_S = [NO_CONCEPT, 'b', None]
-ATOMS_ALN = ['a~1', 'b~e.2', 'x~3', '"s~t"~4', '"~"']
+ATOMS_ALN = ['a~1', 'b~e.2', 'x~y3,4', '"s~t"~4', '"~"']
 ROLES_ALN = {'default': [':r~1', ':r-of~e.2,3'],
              'amr': [':ARG0~1', ':ARG0-of~e.2,3'],
              'noop': [':r~1', ':r-of~e.2,3'],
